@@ -10,6 +10,8 @@ from .values import Sym
 
 
 def _quant(ex, lo, hi, f, universal):
+    if isinstance(lo, int) and isinstance(hi, int) and hi <= lo:
+        return universal  # empty range (the body need not even be evaluable, e.g. indexing a concrete empty list)
     i = ex.fresh_sym('int', 'q')
     n0 = len(ex.pc)
     ex.quant += 1
@@ -235,6 +237,12 @@ SPEC_FORMS = {
 
 
 _REC_CACHE = {}
+# opt-in (pyvc/ext_c10.py): range requirements of struct.pack in the body of a comprehension of the code under proof over a
+# symbolic sequence are collected and make the comprehension raise when violated.  Off (the behaviour before C10): such a
+# body is evaluated with total primitives, i.e. a struct.error there is NOT seen -- contracts that rely on that are listed
+# in notes/C10/NOTES.md
+COMP_REQUIREMENTS = False
+SNOC_LEMMA = False  # opt-in (pyvc/ext_c10.py): also prove / instantiate F(s ++ [x]) == F(s) ++ [m(x)] if c(x)
 
 
 def _free_consts(t, acc, seen):
@@ -280,6 +288,10 @@ def symbolic_comprehension(ex, elt, gens, node):
     saved_scope = ex.scope
     ex.scope = [frame] + list(ex.scope)
     n0 = len(ex.pc)
+    # a comprehension of the *code under proof* (not of a clause / ghost function): requirements of partial
+    # primitives in its body (struct.pack ranges) are collected instead of being silently total
+    saved_reqs = getattr(ex, 'quant_reqs', None)
+    ex.quant_reqs = [] if (COMP_REQUIREMENTS and ex.spec_mode == 0 and not ex.quant) else saved_reqs
     ex.quant += 1
     ex.spec_mode += 1
     try:
@@ -290,7 +302,22 @@ def symbolic_comprehension(ex, elt, gens, node):
         ex.quant -= 1
         ex.spec_mode -= 1
         ex.scope = saved_scope
+        reqs, ex.quant_reqs = ex.quant_reqs, saved_reqs
+    # definitional facts / type invariants stated about the generic element while the body was evaluated
+    elem_defs = [f for f in ex.pc[n0:] if id(f) in ex.def_ids]
     del ex.pc[n0:]
+    if reqs and saved_reqs is None and not ex.quant:
+        # the comprehension raises iff the requirement fails for some element that is evaluated (elements filtered
+        # out by an earlier `if` are not evaluated: the requirement is guarded by the conditions)
+        qi = z3.Int(ex.fresh_name('qi'))
+        guard = z3.And(*[zbool(c) if not isinstance(c, bool) else z3.BoolVal(c) for c in conds]) if conds else z3.BoolVal(True)
+        allreq = z3.And(*[r[0] for r in reqs])
+        body_ok = z3.substitute(z3.Implies(z3.And(guard, *elem_defs), allreq), (e, seq.t[qi]))
+        every = z3.ForAll([qi], z3.Implies(z3.And(qi >= 0, qi < z3.Length(seq.t)), body_ok))
+        if ex.decide([every, z3.Not(every)], 'comprehension element requirement') == 1:
+            from .engine import PyExc
+
+            raise PyExc(ex.new_exception(reqs[0][1], reqs[0][2]))
     cterm = z3.And(*[zbool(c) if not isinstance(c, bool) else z3.BoolVal(c) for c in conds]) if conds else z3.BoolVal(True)
     out_kind = M.guess_kind(ex, ev)
     mterm = M.value_to_elem(ex, ev, out_kind)
@@ -382,6 +409,50 @@ def _lemmas(ent):
         fx = F(x, *phs)
         return z3.Implies(z3.And(j >= 0, j < z3.Length(fx)), z3.substitute(ent['c'], (ent['ph_e'], fx[j])))
 
+    # snoc: F(s ++ [x]) == F(s) ++ ([m(x)] if c(x) else []) for an arbitrary element __x (what `append` needs:
+    # the function is defined on the head, appending is at the end -- induction on s).  The proof obligation is
+    # stated for an *uninterpreted* G in place of F, with the three instances of F's defining equation that the
+    # induction step uses as hypotheses (they hold of F by definition), so that the solvers see pure
+    # EUF + sequences; the sequence facts about head / tail of s ++ [x] are their own obligation (snoc-seq).
+    xs = z3.Const('__x', ent['in_sort'])
+    empty_in = z3.Empty(z3.SeqSort(ent['in_sort']))
+    empty_out = z3.Empty(z3.SeqSort(ent['out_sort']))
+
+    def stmt_snoc(G, x, cf, mf):
+        return G(z3.Concat(x, z3.Unit(xs)), *phs) == z3.Concat(G(x, *phs), z3.If(cf(xs), z3.Unit(mf(xs)), empty_out))
+
+    def unfold(G, x, cf, mf):
+        return G(x, *phs) == z3.If(z3.Length(x) == 0, empty_out, z3.Concat(z3.If(cf(x[0]), z3.Unit(mf(x[0])), empty_out), G(z3.Extract(x, 1, z3.Length(x) - 1), *phs)))
+
+    def c_of(t):
+        return z3.substitute(ent['c'], (ent['ph_e'], t))
+
+    def m_of(t):
+        return z3.substitute(ent['m'], (ent['ph_e'], t))
+
+    if SNOC_LEMMA:
+        sx = z3.Concat(S, z3.Unit(xs))
+        tsx = z3.Extract(sx, 1, z3.Length(sx) - 1)
+        seq_facts = z3.And(
+            z3.Length(sx) == z3.Length(S) + 1,
+            z3.Implies(z3.Length(S) > 0, z3.And(sx[0] == S[0], tsx == z3.Concat(tail, z3.Unit(xs)))),
+            z3.Implies(z3.Length(S) == 0, z3.And(S == empty_in, sx[0] == xs, tsx == empty_in)),
+        )
+        # the statement does not depend on what the condition and the element expression are: they are
+        # uninterpreted functions of the element (and the parameters) in the obligation
+        psorts = [p.sort() for p in phs]
+        G = z3.Function(f'comp{ent["idx"]}_u', *[F.domain(k) for k in range(F.arity())], F.range())
+        Cu = z3.Function(f'comp{ent["idx"]}_c', ent['in_sort'], *psorts, z3.BoolSort())
+        Mu = z3.Function(f'comp{ent["idx"]}_m', ent['in_sort'], *psorts, ent['out_sort'])
+        cu = lambda t: Cu(t, *phs)  # noqa: E731
+        mu = lambda t: Mu(t, *phs)  # noqa: E731
+        out.append(('snoc-seq', [], seq_facts))
+        out.append(('snoc', [z3.Implies(z3.Length(S) > 0, stmt_snoc(G, tail, cu, mu)), seq_facts, unfold(G, sx, cu, mu), unfold(G, S, cu, mu), unfold(G, empty_in, cu, mu)], stmt_snoc(G, S, cu, mu)))
+        ent['snoc_stmt'] = lambda x: stmt_snoc(F, x, c_of, m_of)
+        if z3.is_true(z3.simplify(ent['c'])):
+            # head: the first element of a map over a non-empty sequence (one unfolding of the definition)
+            out.append(('head', [unfold(G, S, cu, mu), cu(S[0])], z3.Implies(z3.Length(S) > 0, G(S, *phs)[0] == mu(S[0]))))
+            ent['head_stmt'] = z3.Implies(z3.Length(S) > 0, F(S, *phs)[0] == m_of(S[0]))
     if ent['identity']:
         # the quantified statement is proved for an arbitrary index __i; the induction
         # hypothesis (for the tail) is instantiated at __i and __i - 1
@@ -395,6 +466,20 @@ def _instances(ent, s, actuals, res):
     sub = [(ent['S'], s)] + list(zip(phs, actuals))
     out = []
     for nm, ih, goal in _lemmas(ent):
+        if nm == 'snoc-seq':
+            continue
+        if nm == 'head':
+            out.append(z3.substitute(ent['head_stmt'], *sub))
+            continue
+        if nm == 'snoc':
+            # instantiated (for F itself) where the argument has the shape init ++ [x] (the result of list.append)
+            st = z3.simplify(s)
+            if z3.is_app(st) and st.decl().kind() == z3.Z3_OP_SEQ_CONCAT and st.num_args() >= 2:
+                last = st.arg(st.num_args() - 1)
+                if z3.is_app(last) and last.decl().kind() == z3.Z3_OP_SEQ_UNIT:
+                    init = st.arg(0) if st.num_args() == 2 else z3.Concat(*[st.arg(i) for i in range(st.num_args() - 1)])
+                    out.append(z3.substitute(ent['snoc_stmt'](ent['S']), (ent['S'], init), (z3.Const('__x', ent['in_sort']), last.arg(0)), *zip(phs, actuals)))
+            continue
         g = z3.substitute(goal, *sub)
         if nm == 'all-satisfy':
             g = z3.ForAll([z3.Int('__i')], g)  # proved for an arbitrary index
